@@ -60,7 +60,9 @@ type HookSpec struct {
 }
 
 type Step struct {
-	K     string `json:"k"` // create modify delete tick settle
+	K     string `json:"k"` // create modify delete tick settle burst
+	// States (burst): the object is modified this many times in a row, without a pause
+	States []int `json:"states,omitempty"`
 	Ns    string `json:"ns,omitempty"`
 	Name  string `json:"name,omitempty"`
 	State int    `json:"state,omitempty"`
@@ -226,9 +228,17 @@ func Gen(t *rapid.T) Case {
 		}
 	}
 	genStep := func() Step {
-		k := rapid.SampledFrom([]string{"create", "modify", "modify", "delete", "tick", "settle", "settle"}).Draw(t, "sk")
+		k := rapid.SampledFrom([]string{"create", "modify", "modify", "delete", "tick", "settle", "settle", "burst"}).Draw(t, "sk")
 		st := Step{K: k}
 		switch k {
+		case "burst":
+			st.Ns = rapid.SampledFrom(Namespaces).Draw(t, "sns")
+			st.Name = rapid.SampledFrom(Names).Draw(t, "sname")
+			first := rapid.IntRange(0, NStates-1).Draw(t, "bfirst")
+			for i, n := 0, rapid.IntRange(3, 6).Draw(t, "blen"); i < n; i++ {
+				// consecutive states differ: every modification is a change
+				st.States = append(st.States, (first+i)%NStates)
+			}
 		case "tick":
 			st.Cron = rapid.SampledFrom(Crontabs).Draw(t, "cron")
 		case "settle":
@@ -439,6 +449,18 @@ func Run(c Case) (*Trace, error) {
 		case "settle":
 			if !env.WaitIdle(30*time.Millisecond, 30*time.Second) {
 				tr.Problems = append(tr.Problems, "operator did not become idle within 30s")
+			}
+		}
+		return nil
+	}
+	applyOne := apply
+	apply = func(st Step) error {
+		if st.K != "burst" {
+			return applyOne(st)
+		}
+		for _, s := range st.States {
+			if err := applyOne(Step{K: "modify", Ns: st.Ns, Name: st.Name, State: s}); err != nil {
+				return err
 			}
 		}
 		return nil
